@@ -11,6 +11,10 @@ package main
 //                              OP in lt le gt ge eq ne empty notempty
 
 import (
+	"sync"
+	"time"
+
+	"github.com/hydraide/hydraide/app/verifhook"
 	"bufio"
 	"context"
 	"fmt"
@@ -95,6 +99,38 @@ func (s *c06State) execC30(f []string, t0 int64) (string, bool) {
 	const island = 1
 	sw := s.swamp
 	switch f[0] {
+	case "busyshift":
+		// busyshift K N: ShiftExpiredTreasures(N) while an Increment of K holds K's record guard (parked at the
+		// inc.acquired point).  The claim walk skips the busy record, which must stay in the expiry index;
+		// the Increment then completes.  Reply: the shift reply, `;`, the increment reply.
+		key := f[1]
+		parked, release := make(chan struct{}), make(chan struct{})
+		var once sync.Once
+		verifhook.SetHandler(func(name string, args ...any) {
+			if name == "inc.acquired" && len(args) > 0 && args[0] == key {
+				first := false
+				once.Do(func() { first = true })
+				if first {
+					close(parked)
+					<-release
+				}
+			}
+		})
+		defer verifhook.SetHandler(nil)
+		incDone := make(chan string, 1)
+		go func() { incDone <- s.execInc([]string{"inc", "i64", key, "1", "-", "-", "-"}, t0) }()
+		select {
+		case <-parked:
+		case r := <-incDone:
+			close(release)
+			return "busyshift notparked ; " + r, true
+		case <-time.After(HxScale(10 * time.Second)):
+			close(release)
+			return "hang nopark", true
+		}
+		shift, _ := s.execC30([]string{"shiftexp", f[2]}, t0)
+		close(release)
+		return "busyshift" + strings.TrimPrefix(shift, "shiftexp") + " ; " + <-incDone, true
 	case "shiftexp":
 		n, _ := strconv.Atoi(f[1])
 		resp, err := gw.ShiftExpiredTreasures(ctx, c06Wire(&hydrapb.ShiftExpiredTreasuresRequest{IslandID: island, SwampName: sw, HowMany: int32(n)}, &hydrapb.ShiftExpiredTreasuresRequest{}))
@@ -188,7 +224,7 @@ func (s *c06State) execC30(f []string, t0 int64) (string, bool) {
 
 // expiry tokens: times relative to the case base, plus 0, epoch, pre-epoch.  Past tokens may be
 // arbitrarily close to the base (every evaluation happens after the base, whatever the machine
-// load: 50 ms and 1 µs before it must already count as expired); future tokens are >= 20 s away
+// load: 50 ms and 1 µs before it must already count as expired); future tokens are >= 120 s away (every case ends with `within 60000`)
 // unless a corpus case brackets them with waits.
 // `i` keeps the expiries of different keys distinct (the index sort is not stable).
 func c30Exp(rng *rand.Rand, i int) string {
@@ -204,7 +240,7 @@ func c30Exp(rng *rand.Rand, i int) string {
 	case 4, 5, 6:
 		return "b" + strconv.FormatInt(3600000000000+d, 10) // in an hour
 	case 7:
-		return "b" + strconv.FormatInt(20000000000+d, 10) // in 20 s
+		return "b" + strconv.FormatInt(120000000000+d, 10) // in two minutes
 	case 8:
 		return "a" + strconv.FormatInt(1000000000+d, 10) // 1970 + 1 s
 	case 9:
@@ -299,13 +335,25 @@ var c30Corpus = []c06CorpusCase{
 		"patchexp 2 1|u1|0||b7200000000000|0", "getidx asc 0 0", "patchexp 0 0||0|||1", "getall", "shiftexp 1", "shiftexp 0", "count"}},
 	// an expiry that passes while we wait.  Before: 3 s of slack for three requests; after: the second wait ends
 	// >= 50 ms past the expiry whatever the load (sleeps never return early), so "expired" is certain there.
-	{[]string{"mem"}, []string{"set 11 k0|bytes:c70080|||||b3000000000 k1|bytes:c70080|||||b3600000000000", "shiftexp 0", "fexp lt now", "getidx asc 0 0", "wait 3050", "fexp lt now", "patchexp 0 0||0||b3600000000000|0", "shiftexp 0", "getall"}},
+	{[]string{"mem"}, []string{"set 11 k0|bytes:c70080|||||b3000000000 k1|bytes:c70080|||||b3600000000000", "shiftexp 0", "fexp lt now", "getidx asc 0 0", "within 2800", "wait 3050", "fexp lt now", "patchexp 0 0||0||b3600000000000|0", "shiftexp 0", "getall"}},
 	// reloaded records (every "changed" flag clear) are claimed by a PatchExpiredTreasures that does not touch
 	// ExpiredAt: they are still expired, so every claim path must still find them afterwards
 	{[]string{"p1", "p0"}, []string{"set 11 k0|bytes:c70080|||||b-3600000000000 k1|bytes:c70080|||||b-50000000 k2|bytes:c70080|||||b3600000000000", "close",
 		"patchexp 0 0||0|u7||0", "getall", "getidx asc 0 0", "fexp lt now", "shiftexp 1", "getall", "patchexp 1 0||0|u8||0", "getall", "shiftexp 0", "getall"}},
+	// what a reload must keep: a cleared expiry stays cleared, a pre-epoch expiry stays what it was, claimed records stay claimed
+	{[]string{"p1", "p0"}, []string{"set 11 k0|bytes:c70080|||||b3600000000000 k1|bytes:c70080|||||b-3600000000000 k2|bytes:c70080||||| k3|i64:1|||||b-3500000000000",
+		"patch 0 k2 0||0||a-5000000000|0", "getall", "close", "getall", "patch 0 k0 0||0|||1", "getall", "close", "getall", "getidx asc 0 0",
+		"shiftexp 1", "getall", "restart", "getall", "fexp lt now", "shiftexp 0", "getall", "close", "getall"}},
+	// a record whose guard is held while ShiftExpired walks the index is skipped, stays indexed and is claimed next time
+	{[]string{"mem", "p1"}, []string{"set 11 k0|i64:5|||||b-3600000000000 k1|bytes:c70080|||||b-3500000000000 k2|bytes:c70080|||||b3600000000000", "getidx asc 0 0",
+		"busyshift k0 0", "getall", "getidx asc 0 0", "fexp lt now", "shiftexp 0", "getall"}},
+	// … also when the guard holder stores nothing afterwards (an Increment refused for the record's type): nothing re-files the record
+	{[]string{"mem", "p1"}, []string{"set 11 k0|i64:5|||||b-3600000000000 k1|bytes:c70080|||||b-3500000000000 k2|bytes:c70080|||||b3600000000000", "getidx asc 0 0",
+		"busyshift k1 0", "getall", "fexp lt now", "shiftexp 0", "getall"}},
+	{[]string{"mem"}, []string{"set 11 k0|i64:5|||||b-3600000000000 k1|bytes:c70080|||||b-3500000000000 k2|bytes:c70080|||||b3600000000000",
+		"busyshift k1 1", "busyshift k1 0", "getall", "shiftexp 0", "getall"}},
 	// expiries 50 ms and 1 µs before the base are expired on every path from the first request on
-	{[]string{"mem", "p1"}, []string{"set 11 k0|bytes:c70080|||||b-50000000 k1|i64:1|||||b-1000 k2|bytes:c70080|||||b20000000000", "fexp lt now", "getidx asc 0 0", "patchexp 1 0||0||b3600000000000|0", "shiftexp 0", "getall"}},
+	{[]string{"mem", "p1"}, []string{"set 11 k0|bytes:c70080|||||b-50000000 k1|i64:1|||||b-1000 k2|bytes:c70080|||||b120000000000", "fexp lt now", "getidx asc 0 0", "patchexp 1 0||0||b3600000000000|0", "shiftexp 0", "getall"}},
 	// reload keeps the expiry and rebuilds the index
 	{[]string{"p1", "p0"}, []string{"set 11 k0|bytes:c70080|||||b-3600000000000 k1|i64:7|||||b3600000000000 k2|i64:0|||||b-3500000000000", "getidx asc 0 0", "close", "getall", "getidx asc 0 0", "fexp lt now", "shiftexp 0", "close", "getall"}},
 	// failed conditional increment moves the expiry in memory only
@@ -328,7 +376,7 @@ func c30Gen(rng *rand.Rand, tier string, w *bufio.Writer) {
 	}
 	for _, c := range c30Corpus {
 		for _, k := range c.kinds {
-			emit(k, c.ops)
+			emit(k, append(append([]string{}, c.ops...), "within 60000"))
 		}
 	}
 	for i := 0; i < cases; i++ {
@@ -337,7 +385,10 @@ func c30Gen(rng *rand.Rand, tier string, w *bufio.Writer) {
 		for j, l := 0, 8+rng.Intn(length); j < l; j++ {
 			ops = append(ops, c30Op(rng, kind != "mem"))
 		}
-		ops = append(ops, "getall", "getidx asc 0 0", "fexp lt now", "shiftexp 0", "getall")
+		if kind != "mem" {
+			ops = append(ops, "getall", c06Pick(rng, []string{"close", "close", "restart"}), "getall")
+		}
+		ops = append(ops, "getall", "getidx asc 0 0", "fexp lt now", "shiftexp 0", "getall", "within 60000")
 		emit(kind, ops)
 	}
 }
